@@ -4,6 +4,11 @@ SPEC = {
          "runner": {"pkg": "./ipfix", "test": "TestVerifCache", "race": True, "timeout": "30m"}},
         {"kind": "cachestress9", "quick": 3, "thorough": 40,
          "runner": {"pkg": "./netflow/v9", "test": "TestVerifCache", "race": True, "timeout": "30m"}},
+        # "not already superseded before the lookup began", seen from the decoders: sequential histories of announcements,
+        # re-announcements (also in the middle of one message) and data through the real Decode (a lookup the decoder answers
+        # from anything but the cache shows here)
+        {"kind": "ipfix-hist", "quick": 1500, "thorough": 100000},
+        {"kind": "nf9-hist", "quick": 1500, "thorough": 100000},
     ],
     "rule": "each case = 16..63 goroutines for 0.4..4 s under `go test -race` calling the real insert / retrieve / IRPC.Get / Dump "
             "on shared (overlap %) and private keys (three shared and eight private pairs of keys are searched to collide under the "
